@@ -54,6 +54,7 @@ def f():
     return g() + 1
 ''',
     "helpers.py": '''
+import functools
 from . import consts
 from .consts import SCALE
 
@@ -89,6 +90,20 @@ def hash(x):
 
 format = "fmt-1"
 
+@functools.lru_cache(maxsize=None)
+def memo_rate(x):
+    return x + 3000
+
+def plus_some(fn):
+    @functools.wraps(fn)
+    def wrapper(*a, **k):
+        return fn(*a, **k) + 4000
+    return wrapper
+
+@plus_some
+def wrapped_value():
+    return 1
+
 class RootConf:
     def deep(self):
         return 900
@@ -121,6 +136,7 @@ import dds
 from . import helpers
 from .helpers import scaled as sc, sort_key as skey, Conf
 from .helpers import hash, format
+from .helpers import memo_rate, wrapped_value
 from . import consts
 from .consts import UNITF as UNITF_D, ZEROF as ZEROF_D, STAGES as STAGES_D
 from .consts import BATCH as BATCH_D, RATE as RATE_D, TAGS as TAGS_D, FROZEN as FROZEN_D
@@ -174,6 +190,10 @@ def reader():
     # evaluated on its own, after the pipeline: the path it loads was committed by an earlier evaluation
     CALLS.append("reader")
     return "read:%s" % (dds.load("/c/plain"),)
+
+def leaf_wrapped():
+    CALLS.append("leaf_wrapped")
+    return memo_rate(1), wrapped_value()
 
 def leaf_order():
     CALLS.append("leaf_order")
@@ -262,6 +282,7 @@ def root():
     out["tags"] = dds.keep("/c/tags", leaf_tags)
     out["unit"] = dds.keep("/c/unit", leaf_unit)
     out["order"] = dds.keep("/c/order", leaf_order)
+    out["wrapped"] = dds.keep("/c/wrapped", leaf_wrapped)
     out["li"] = dds.keep("/c/li", leaf_li)
     out["shadow"] = dds.keep("/c/shadow", leaf_shadow)
     out["crlf"] = dds.keep("/c/crlf", leaf_crlf)
@@ -299,7 +320,7 @@ import os, importlib
 shipped = importlib.import_module(os.environ.get("CORPUS_PKG", "corp") + ".helpers").shipped
 '''
 
-ALL = ["/c/plain", "/c/scaled", "/c/items", "/c/flag", "/c/pair", "/c/direct", "/c/kw", "/c/href", "/c/batch", "/c/rate", "/c/tags", "/c/unit", "/c/order", "/c/li", "/c/shadow", "/c/crlf", "/c/method", "/c/clsattr", "/c/reexp", "/c/ext", "/c/args", "/c/args2", "/c/args3", "/c/rt", "/c/dup", "/c/ml", "/c/ann_root", "/c/annotated", "/c/optional", "/c/top_args"]
+ALL = ["/c/plain", "/c/scaled", "/c/items", "/c/flag", "/c/pair", "/c/direct", "/c/kw", "/c/href", "/c/batch", "/c/rate", "/c/tags", "/c/unit", "/c/order", "/c/wrapped", "/c/li", "/c/shadow", "/c/crlf", "/c/method", "/c/clsattr", "/c/reexp", "/c/ext", "/c/args", "/c/args2", "/c/args3", "/c/rt", "/c/dup", "/c/ml", "/c/ann_root", "/c/annotated", "/c/optional", "/c/top_args"]
 # edits: (name, file, old, new, kept paths whose cone contains the edit [besides the root], value must change for these)
 EDITS = [
     ("callee body (transitive)", "corp/helpers.py", "return 10", "return 11", ["/c/scaled", "/c/rt"]),
@@ -323,6 +344,9 @@ EDITS = [
     ("callee imported inside the function body", "corp/helpers.py", "return 400", "return 401", ["/c/li", "/c/rt"]),
     ("method body reached through an instance", "corp/helpers.py", "return 600", "return 601", ["/c/method", "/c/rt"]),
     ("static method body", "corp/helpers.py", "return 55", "return 56", ["/c/method", "/c/rt"]),
+    ("body of a helper behind functools.lru_cache", "corp/helpers.py", "return x + 3000", "return x + 3001", ["/c/wrapped", "/c/rt"]),
+    ("body of the wrapper that a decorator installs around a helper", "corp/helpers.py", "return fn(*a, **k) + 4000", "return fn(*a, **k) + 4001", ["/c/wrapped", "/c/rt"]),
+    ("body of a helper under a functools.wraps decorator", "corp/helpers.py", "def wrapped_value():\n    return 1", "def wrapped_value():\n    return 2", ["/c/wrapped", "/c/rt"]),
     ("method inherited from a base class of the package", "corp/helpers.py", "return 800 + self.deep()", "return 801 + self.deep()", ["/c/method", "/c/rt"]),
     ("method inherited from the base class of the base class", "corp/helpers.py", "return 900", "return 901", ["/c/method", "/c/rt"]),
     # (a class is a dependency as a whole: every user of Conf is in the cone of an edit anywhere in the class body)
@@ -347,6 +371,10 @@ FUN_ATTR_READERS = {"function referenced through a module attribute": ["/c/href"
 LOCAL_IMPORT_READERS = {"callee imported inside the function body": ["/c/li", "/c/rt", "/c/dup", "/c/ml"]}
 # a class that is referenced but not called (Conf.LIMIT) is not inspected at all
 CLASS_ATTR_READERS = {"class attribute read without a call": ["/c/clsattr", "/c/rt", "/c/dup", "/c/ml"]}
+# a helper wrapped by an object that is not a function (functools.lru_cache) is an opaque external object for the analysis
+WRAPPER_READERS = {"body of a helper behind functools.lru_cache": ["/c/wrapped", "/c/rt", "/c/dup", "/c/ml"]}
+# the decorators of a function are not among its dependencies: the source of a decorated helper is its own `def`
+DECORATOR_READERS = {"body of the wrapper that a decorator installs around a helper": ["/c/wrapped", "/c/rt", "/c/dup", "/c/ml"]}
 KNOWN_EDIT_CLASSES = {}
 
 MAIN_SCRIPT = '''
@@ -597,7 +625,7 @@ def edit(d, rel, old, new):
     shutil.rmtree(os.path.join(os.path.dirname(p), "__pycache__"), ignore_errors=True)
 
 
-FUN_OF = {"/c/optional": "optional", "/c/shadow": "leaf_shadow", "/c/ml": "ml_leaf", "/c/crlf": "leaf_crlf", "/c/method": "leaf_method", "/c/clsattr": "leaf_clsattr", "/c/li": "leaf_li", "/c/dup": "dup_leaf", "/c/unit": "leaf_unit", "/c/order": "leaf_order", "/c/batch": "leaf_batch", "/c/rate": "leaf_rate", "/c/tags": "leaf_tags", "/c/reexp": "leaf_reexp", "/c/top_args": "with_values", "/c/kw": "leaf_kw", "/c/href": "leaf_href", "/c/direct": "leaf_direct", "/c/plain": "leaf_plain", "/c/scaled": "leaf_scaled", "/c/items": "leaf_items", "/c/flag": "leaf_flag", "/c/pair": "leaf_pair", "/c/ext": "leaf_ext", "/c/args": "with_args:1", "/c/args2": "with_args:2", "/c/args3": "with_args:3", "/c/rt": "with_runtime", "/c/annotated": "annotated", "/c/ann_root": "root"}
+FUN_OF = {"/c/optional": "optional", "/c/shadow": "leaf_shadow", "/c/ml": "ml_leaf", "/c/crlf": "leaf_crlf", "/c/method": "leaf_method", "/c/clsattr": "leaf_clsattr", "/c/li": "leaf_li", "/c/dup": "dup_leaf", "/c/unit": "leaf_unit", "/c/order": "leaf_order", "/c/wrapped": "leaf_wrapped", "/c/batch": "leaf_batch", "/c/rate": "leaf_rate", "/c/tags": "leaf_tags", "/c/reexp": "leaf_reexp", "/c/top_args": "with_values", "/c/kw": "leaf_kw", "/c/href": "leaf_href", "/c/direct": "leaf_direct", "/c/plain": "leaf_plain", "/c/scaled": "leaf_scaled", "/c/items": "leaf_items", "/c/flag": "leaf_flag", "/c/pair": "leaf_pair", "/c/ext": "leaf_ext", "/c/args": "with_args:1", "/c/args2": "with_args:2", "/c/args3": "with_args:3", "/c/rt": "with_runtime", "/c/annotated": "annotated", "/c/ann_root": "root"}
 
 
 def main():
@@ -677,8 +705,10 @@ def main():
                     # a module variable of an unsupported type (set / frozenset) is outside the supported subset: it is
                     # identified by where it lives, so its reader (and what depends on the reader's position: the
                     # root, the later sibling with a run-time argument) legitimately differs in the copy
-                    by_location = {"/c/tags", "/c/rt", "/c/dup", "/c/ml", "/c/ann_root"}
-                    moved = [c_ for c_ in cp["calls"] if c_ not in ("root", "leaf_tags", "with_runtime", "dup_leaf", "ml_leaf")]
+                    # (the same holds for a helper wrapped by a non-function object such as functools.lru_cache: an opaque
+                    #  external object named by its location -- open finding callee_behind_a_non_function_wrapper of C01)
+                    by_location = {"/c/tags", "/c/wrapped", "/c/rt", "/c/dup", "/c/ml", "/c/ann_root"}
+                    moved = [c_ for c_ in cp["calls"] if c_ not in ("root", "leaf_tags", "leaf_wrapped", "with_runtime", "dup_leaf", "ml_leaf")]
                     if cp.get("error") or moved:
                         note(None, "code copied unchanged to another accepted module re-executed %s %s" % (moved, cp.get("error") or ""))
                     diff = [p for p in ALL if cp["sigs"].get(p) != base["sigs"].get(p) and p not in by_location]
@@ -707,11 +737,15 @@ def main():
                             c = "callee_imported_inside_function_body"
                         elif p in CLASS_ATTR_READERS.get(name, []):
                             c = "class_attribute_read_without_call"
+                        elif p in WRAPPER_READERS.get(name, []):
+                            c = "callee_behind_a_non_function_wrapper"
+                        elif p in DECORATOR_READERS.get(name, []):
+                            c = "decorator_body_not_tracked"
                         else:
                             c = None
                         note(c, "[%s] the signature of %s did not change although the edit is in its dependency cone (stale result served)" % (name, p))
                     if after["value"] != plain["value"] and name != "non-accepted module body":  # untracked by design (C14)
-                        cs = {("variable_read_through_module_attribute" if p in ATTR_READERS.get(name, []) else "untracked_variable_type" if (p == "/c/direct" and name in UNTRACKED_TYPES) else "function_referenced_through_module_attribute" if p in FUN_ATTR_READERS.get(name, []) else "callee_imported_inside_function_body" if p in LOCAL_IMPORT_READERS.get(name, []) else "class_attribute_read_without_call" if p in CLASS_ATTR_READERS.get(name, []) else None) for p in stale}
+                        cs = {("variable_read_through_module_attribute" if p in ATTR_READERS.get(name, []) else "untracked_variable_type" if (p == "/c/direct" and name in UNTRACKED_TYPES) else "function_referenced_through_module_attribute" if p in FUN_ATTR_READERS.get(name, []) else "callee_imported_inside_function_body" if p in LOCAL_IMPORT_READERS.get(name, []) else "class_attribute_read_without_call" if p in CLASS_ATTR_READERS.get(name, []) else "callee_behind_a_non_function_wrapper" if p in WRAPPER_READERS.get(name, []) else "decorator_body_not_tracked" if p in DECORATOR_READERS.get(name, []) else None) for p in stale}
                         c = None if (None in cs or not cs) else sorted(cs)[0]
                         note(c, "[%s] dds returns %s, plain execution of the edited code gives %s" % (name, after["value"][:160], plain["value"][:160]))
                 else:
